@@ -427,6 +427,26 @@ def classify_panic(out):
     return None
 
 
+def driver_failed(label, out, leak_is_violation=False):
+    """What to raise when a driver ended without (usable) results: a panic whose innermost non-runtime frame is code of the
+    client is the client's (a violation, reported like a stall verdict); anything else is the machinery's (exit 2).
+    leak_is_violation (C19): a scenario bubble that cannot end because goroutines of the CLIENT (and only of the client) are
+    blocked for ever after the scenario closed the client is "a goroutine left behind"."""
+    v = classify_panic(out)
+    if v:
+        return ClientStall(v["sig"], v["desc"])
+    if leak_is_violation and "deadlock: main bubble goroutine has exited but blocked goroutines remain" in out:
+        gor = [g for g in out.split("\n\n") if g.startswith("goroutine ") and "synctest bubble" in g.splitlines()[0]]
+        def client_only(g):
+            fr = [l for l in g.splitlines()[1:] if l.startswith("\t")]
+            return fr and all(("zz_verif" not in l and "/internal/verifsim/" not in l) for l in fr) and any((REPO + "/") in l for l in fr)
+        if gor and all(client_only(g) for g in gor):
+            fn = gor[0].splitlines()[1].split("(")[0].split("/")[-1]
+            return ClientStall("goroutine-left-after-close:" + fn, "after the scenario had closed the client, %d goroutine(s) of the client stay blocked for "
+                               "ever (the scenario's bubble cannot end):\n%s" % (len(gor), "\n\n".join(g[:700] for g in gor[:3])))
+    return MachineryError(label + ":\n" + out[-3500:])
+
+
 def classify_race(out):
     """A race-detector report: violation dict if both conflicting accesses are in the code under test, None if the
     harness is involved (a harness bug)."""
